@@ -113,7 +113,7 @@ func (cs *CommandStatement) rearrange() {
 }
 
 func (cs *CommandStatement) split(str string) []*CommandStatementElement {
-	split := strings.Split(str, " ")
+	split := strings.Fields(str)
 	elements := make([]*CommandStatementElement, 0, len(split))
 	for _, word := range split {
 		if word == "" {
